@@ -589,14 +589,14 @@ pub fn split_tt<'a>(p: &'a STT) -> (&'a TT, &'a SimpleSpan<usize>) {
     (t, s)
 }
 
-/// The end-of-input span of a token sequence of the mapped kinds and of the `tree` kind: `E..E` with
-/// `E` = (end of the last token) + 2, or `3..3` for the empty sequence.
+/// The end-of-input span of a token sequence of the mapped kinds and of the `tree` kind: `E-1..E` with
+/// `E` = (end of the last token) + 2, or `2..3` for the empty sequence (not zero-width: chumsky only uses its end).
 pub fn eoi_of<T>(toks: &[(T, SimpleSpan<usize>)]) -> SimpleSpan<usize> {
     let e = match toks.last() {
         Some((_, s)) => s.end + 2,
         None => 3,
     };
-    SimpleSpan::from(e..e)
+    SimpleSpan::from(e - 1..e)
 }
 
 pub type TreeIn<'a> =
